@@ -1023,11 +1023,15 @@ func lengthEstablishedByEarlierCall(p *ana.Prog, ts *ana.TaintState, f *ssa.Func
 	if !ok || (bo.Op != token.NEQ && bo.Op != token.EQL) {
 		return false, ""
 	}
-	k, isK := ana.ConstInt(bo.Y)
-	if !isK || !isLenOf(bo.X) {
+	bx, by := bo.X, bo.Y
+	if _, isC := ana.ConstInt(bx); isC {
+		bx, by = by, bx // the constant may stand on either side of == / !=
+	}
+	k, isK := ana.ConstInt(by)
+	if !isK || !isLenOf(bx) {
 		return false, ""
 	}
-	lc, _ := ana.CallOf(bo.X)
+	lc, _ := ana.CallOf(bx)
 	ld, ok := lc.Common().Args[0].(*ssa.UnOp)
 	if !ok || ld.Op != token.MUL {
 		return false, ""
